@@ -854,3 +854,35 @@ Definition ordered_field (R : Type) (rO rI : R) (radd rmul rsub rdiv : R -> R ->
   (forall n, of_nat R rO rI radd (S n) <> rO) /\
   (forall a b m, rleb (rsub a m) (rsub b m) = rleb a b) /\
   (forall a b, reqb a b = true <-> a = b).
+
+(* ------------------------------------------------------------------ *)
+(* the carrier hypotheses are satisfiable: canonical rationals Qc (Leibniz equality) *)
+From Coq Require Import QArith Qcanon.
+Definition qcleb (a b : Qc) : bool := if Qclt_le_dec b a then false else true.
+Definition qceqb (a b : Qc) : bool := if Qc_eq_dec a b then true else false.
+
+Lemma qc_of_nat_nonneg n : (0 <= of_nat Qc 0 1 Qcplus n)%Qc.
+Proof.
+  induction n as [|n IH]; [apply Qcle_refl|].
+  change (of_nat Qc 0%Qc 1%Qc Qcplus (S n)) with (1 + of_nat Qc 0 1 Qcplus n)%Qc.
+  rewrite <- (Qcplus_0_l 0). apply Qcplus_le_compat; [discriminate|exact IH].
+Qed.
+
+Lemma ordered_field_Qc :
+  ordered_field Qc 0%Qc 1%Qc Qcplus Qcmult Qcminus Qcdiv Qcopp Qcinv qcleb qceqb.
+Proof.
+  split; [exact Qcft|]. split; [discriminate|]. split.
+  - intros n H. change (of_nat Qc 0%Qc 1%Qc Qcplus (S n)) with (1 + of_nat Qc 0 1 Qcplus n)%Qc in H.
+    pose proof (Qcplus_le_compat 1 1 0 _ (Qcle_refl 1) (qc_of_nat_nonneg n)) as P.
+    rewrite H, Qcplus_0_r in P. apply (Qcle_not_lt _ _ P). reflexivity.
+  - split.
+    + intros a b m. unfold qcleb.
+      destruct (Qclt_le_dec (b - m) (a - m)) as [H|H], (Qclt_le_dec b a) as [H'|H'];
+        try reflexivity; exfalso.
+      * apply (Qcle_not_lt (a - m) (b - m)); [|exact H].
+        unfold Qcminus. apply Qcplus_le_compat; [exact H'|apply Qcle_refl].
+      * apply (Qcle_not_lt a b); [|exact H'].
+        replace a with ((a - m) + m)%Qc by ring. replace b with ((b - m) + m)%Qc by ring.
+        apply Qcplus_le_compat; [exact H|apply Qcle_refl].
+    + intros a b. unfold qceqb. destruct (Qc_eq_dec a b); split; congruence.
+Qed.
